@@ -8,6 +8,7 @@ CONSTANTS
   TokenForFailed = FALSE
   UdsKeepsToken = TRUE
   ServeWhilePending = FALSE
+  StopServesQueued = FALSE
 SPECIFICATION Spec
 INVARIANTS B_TokensArePositions C01_OwnListenersService B_NoPanic B_SvcOwner
 CHECK_DEADLOCK FALSE
